@@ -1,25 +1,108 @@
 import Lean.Data.Json
 import Glom.Spec.C05
 import Glom.Spec.C05Tree
+import Glom.Spec.C05Repr
+import Glom.Generated.C05Facts
 /-
-  C05 driver.  case: {"events":[["enter",parent,flagged,spec,target,tid,tlen|null,slen|null] | ["ok"] | ["err",e]…],
-                      "errors":[[e, text]…], "root_error":e, "width":w, "impl":{"trace": text}}
+  C05 driver.  case: {"events":[["enter",parent,flagged,spec,target,tid,tlen|null,slen|null(,specValue|null,targetValue|null)] | ["ok"] | ["err",e]…],
+                      "errors":[[e, text]…], "root_error":e, "width":w, "np":[code points that are not printable],
+                      "impl":{"trace": text}}
+              or    {"reprcase":{"limits":[[name,n]…],"value":v,"impl":text}, "np":[…]}   (bbrepr alone, any limits)
+  values: {"i":n} {"s":str} {"o":repr,"bn":name|null} {"l":[…]} {"t":[…]} {"set":[…]} {"fs":[…]} {"dq":[…]}
+          {"arr":[typecode,[…]]} {"d":[[k,v]…]}
 -/
 namespace Glom.C05.Driver
 open Lean Glom.C05
 
 def optNat (j : Json) : Option Nat := match j with | .null => none | _ => j.getNat?.toOption
 
-def evOfJson (j : Json) : Except String Ev :=
+partial def rvOfJson (j : Json) : Except String RV := do
+  let items := fun (a : Array Json) => do
+    let xs ← a.toList.mapM rvOfJson
+    return xs.foldr (fun x acc => RV.cons x acc) RV.nil
+  match j with
+  | .obj _ =>
+    if let .ok v := j.getObjVal? "i" then return .int (← v.getInt?)
+    if let .ok (.str s) := j.getObjVal? "s" then return .str s.toList
+    if let .ok (.str r) := j.getObjVal? "o" then
+      let bn := match j.getObjVal? "bn" with
+        | .ok (.str n) => some n.toList
+        | _ => none
+      return .other r.toList bn
+    if let .ok (.arr a) := j.getObjVal? "l" then return .seq .list (← items a)
+    if let .ok (.arr a) := j.getObjVal? "t" then return .seq .tuple (← items a)
+    if let .ok (.arr a) := j.getObjVal? "set" then return .seq .set (← items a)
+    if let .ok (.arr a) := j.getObjVal? "fs" then return .seq .frozenset (← items a)
+    if let .ok (.arr a) := j.getObjVal? "dq" then return .seq .deque (← items a)
+    if let .ok (.arr #[.str tc, .arr a]) := j.getObjVal? "arr" then
+      return .seq (.array (tc.toList.headD 'i')) (← items a)
+    if let .ok (.arr a) := j.getObjVal? "d" then
+      let es ← a.toList.mapM (fun e => match e with
+        | .arr #[k, v] => do return ((← rvOfJson k), (← rvOfJson v))
+        | _ => throw "bad dict entry")
+      return .dict (es.foldr (fun kv acc => RV.cons kv.1 (RV.cons kv.2 acc)) RV.nil)
+    throw s!"bad value {j.compress}"
+  | _ => throw s!"bad value {j.compress}"
+
+def optRV (j : Json) : Except String (Option RV) :=
+  match j with
+  | .null => pure none
+  | _ => do return some (← rvOfJson j)
+
+/-- an event with the values of its spec and target, where the harness could encode them -/
+structure EvV where
+  ev : Ev
+  sv : Option RV := none
+  tv : Option RV := none
+
+def evOfJson (j : Json) : Except String EvV :=
   match j with
   | .arr #[.str "enter", p, .bool fl, .str sp, .str tg, tid, tl, sl] => do
-    return .enter (← p.getNat?) fl sp.toList tg.toList (← tid.getNat?) (optNat tl) (optNat sl)
-  | .arr #[.str "ok"] => pure .exitOk
-  | .arr #[.str "err", e] => do return .exitErr (← e.getNat?)
+    return { ev := .enter (← p.getNat?) fl sp.toList tg.toList (← tid.getNat?) (optNat tl) (optNat sl) }
+  | .arr #[.str "enter", p, .bool fl, .str sp, .str tg, tid, tl, sl, sv, tv] => do
+    return { ev := .enter (← p.getNat?) fl sp.toList tg.toList (← tid.getNat?) (optNat tl) (optNat sl),
+             sv := (← optRV sv), tv := (← optRV tv) }
+  | .arr #[.str "ok"] => pure { ev := .exitOk }
+  | .arr #[.str "err", e] => do return { ev := .exitErr (← e.getNat?) }
   | _ => .error s!"bad event {j.compress}"
 
+/-- the event with the texts `f` computes from the values (the recorded text where there is no value) -/
+def withTexts (f : RV → Str) (e : EvV) : Ev :=
+  match e.ev with
+  | .enter p fl sp tg tid tl sl =>
+    .enter p fl ((e.sv.map f).getD sp) ((e.tv.map f).getD tg) tid tl sl
+  | x => x
+
+def printable (np : List Nat) (c : Char) : Bool :=
+  if c.toNat < 127 then 32 ≤ c.toNat else !np.contains c.toNat
+
+def npOf (j : Json) : List Nat :=
+  match j.getObjVal? "np" with
+  | .ok (.arr a) => a.toList.filterMap (fun x => x.getNat?.toOption)
+  | _ => []
+
+def reprCase (j rc : Json) : Except String Json := do
+  let tbl ← (match rc.getObjVal? "limits" with
+    | .ok (.arr a) => a.toList.mapM (fun e => match e with
+        | .arr #[.str n, v] => do return (n, (← v.getNat?))
+        | _ => throw "bad limit")
+    | _ => throw "limits missing")
+  let v ← rvOfJson (← rc.getObjVal? "value")
+  let impl ← rc.getObjValAs? String "impl"
+  let P := printable (npOf j)
+  let L := limitsOf tbl
+  let model := String.ofList (bbrepr L P v)
+  let exact := fits L P v
+  -- a value within the limits is rendered as Python's repr renders it (Props/C05Repr: c05_repr_exact)
+  let refOK := !exact || bbrepr L P v == refRepr P v
+  return Json.mkObj [("agree", model == impl && refOK), ("holds", true),
+    ("branch", if exact then "repr-unit-within-limits" else "repr-unit-elided"),
+    ("why", if model != impl then "the model of bbrepr (reprlib.Repr with these limits) differs from the implementation" else ""),
+    ("model", Json.mkObj [("repr", model)])]
+
 def run (j : Json) : Except String Json := do
-  let evs ← (match j.getObjVal? "events" with
+  if let .ok rc := j.getObjVal? "reprcase" then return (← reprCase j rc)
+  let evvs ← (match j.getObjVal? "events" with
     | .ok (.arr a) => a.toList.mapM evOfJson
     | _ => throw "events missing")
   let errs ← (match j.getObjVal? "errors" with
@@ -27,7 +110,7 @@ def run (j : Json) : Except String Json := do
         | .arr #[n, .str t] => do return ((← n.getNat?), t.toList)
         | _ => throw "bad error entry")
     | _ => throw "errors missing")
-  if evs.isEmpty then
+  if evvs.isEmpty then
     -- glom() raised an object that is not a GlomError (GlomError.wrap gave the original back)
     match (← j.getObjVal? "impl").getObjVal? "unwrapped" with
     | .ok (.str cls) =>
@@ -45,6 +128,17 @@ def run (j : Json) : Except String Json := do
   let width ← j.getObjValAs? Nat "width"
   let impl ← (← j.getObjVal? "impl").getObjValAs? String "trace"
   let errText := fun (e : Nat) => ((errs.find? (·.1 == e)).map (·.2)).getD "<unknown error>".toList
+  -- the values: the MODEL renders them with the model of bbrepr under the limits extracted from
+  -- glom's instance; the PROPERTY is stated about Python's own repr of them (`refTrace`)
+  let P := printable (npOf j)
+  let L := limitsOf Glom.Generated.bbLimitTable
+  let recorded := evvs.map (·.ev)
+  let evs := evvs.map (withTexts (traceRepr L P))          -- what the model renders
+  let evsR := evvs.map (withTexts (refTrace P))            -- what the lines have to show
+  let nValues := (evvs.filter (fun e => e.sv.isSome || e.tv.isSome)).length
+  -- tie of the bbrepr model: on every value it reproduces the text bbrepr gave
+  let reprAgree := evs == recorded
+  let elided := evs != evsR
   let model := traceText evs errText rootError width
   let fs := replay evs
   let rows := unpack fs 1
@@ -61,7 +155,7 @@ def run (j : Json) : Except String Json := do
   let unrendered := errs.any (fun e => isInfix "<exception str() failed>".toList e.2)
   -- the property on str(exc) itself: the trace the message contains satisfies the clauses
   let msgOK := match message with
-    | some m => checkC05 evs errText rootError (msgTrace errText rootError m)
+    | some m => checkC05 evsR errText rootError (msgTrace errText rootError m)
     | none => true
   -- tie: the message is the header, the model's trace at the default width, then the traceback lines
   let msgWidth := ((← j.getObjVal? "impl").getObjValAs? Nat "msg_width").toOption
@@ -69,9 +163,9 @@ def run (j : Json) : Except String Json := do
     | some m, some w => strFailed ||
         isPrefix (msgHeader ++ (if w == width then model else traceText evs errText rootError w).toList ++ ['\n']) m.toList
     | _, _ => true
-  let traceOK := checkC05 evs errText rootError impl
+  let traceOK := checkC05 evsR errText rootError impl
   let holds := !strFailed && !unrendered && traceOK && tailOK && msgOK
-  let modelHolds := checkC05 evs errText rootError model
+  let modelHolds := checkC05 evsR errText rootError model
   -- the tie of the structural theorems (Props/C05Spine) to the code: the recorded evaluation must
   -- be the event list of a well-formed evaluation tree whose root raises the root error
   let domainWhy : String :=
@@ -84,12 +178,18 @@ def run (j : Json) : Except String Json := do
       else if !onePath t.err t.kids then "the root error is the outcome of a call outside the propagation path"
       else ""
   let inDom := domainWhy == ""
-  return Json.mkObj [("agree", model == impl && inDom && msgAgree), ("holds", holds), ("in_domain", inDom), ("domain_why", domainWhy), ("model_holds", modelHolds), ("clauses", toJson (clausesC05 evs errText rootError impl)),
-    ("message_agrees", msgAgree),
-    ("message_clauses", toJson (match message with | some m => clausesC05 evs errText rootError (msgTrace errText rootError m) | none => [])),
-    ("why", if holds then "" else if strFailed then "str(exc) raised: the error has no message" else if unrendered then "the message of an error in the trace could not be rendered: its __str__ raised" else if !tailOK then "the message does not end with the type and message of the original error" else if traceOK && !msgOK then "str(exc) does not contain a target-spec trace that begins with the root target / lists the failing path in order / shows the failing spec's target / shows every failed branch / stops at the failing spec" else "the trace does not begin with the root target / list the failing path in order / show the failing spec's target / show every failed branch / stop at the failing spec (it lists a spec that returned normally below it)"),
+  let clauses := clausesC05 evsR errText rootError impl
+  let clauseNames := ["begin with the root target", "list the failing path in order", "show the failing spec's target",
+    "show every failed branch", "stop at the failing spec (it lists a spec that returned normally below it)"]
+  let failedClauses := (clauses.zip clauseNames).filterMap (fun (ok, n) => if ok then none else some n)
+  return Json.mkObj [("agree", model == impl && inDom && msgAgree && reprAgree), ("holds", holds), ("in_domain", inDom), ("domain_why", domainWhy), ("model_holds", modelHolds), ("clauses", toJson clauses),
+    ("message_agrees", msgAgree), ("repr_agrees", reprAgree), ("values", nValues),
+    ("message_clauses", toJson (match message with | some m => clausesC05 evsR errText rootError (msgTrace errText rootError m) | none => [])),
+    ("why", if holds then (if reprAgree then "" else "the model of bbrepr differs from the text bbrepr gave for a spec / target value") else if strFailed then "str(exc) raised: the error has no message" else if unrendered then "the message of an error in the trace could not be rendered: its __str__ raised" else if !tailOK then "the message does not end with the type and message of the original error" else if traceOK && !msgOK then "str(exc) does not contain a target-spec trace that begins with the root target / lists the failing path in order / shows the failing spec's target / shows every failed branch / stops at the failing spec" else
+      "the trace does not " ++ ", ".intercalate failedClauses ++
+      (if elided then " — a Target / Spec line does not show the value it was given: the rendering of a value that fits the line is elided (a reprlib size limit is in force)" else "")),
     ("model", Json.mkObj [("trace", model)]),
     ("branch", (if branching then "branching" else "linear") ++ (if chained then "+chain" else "") ++
-               s!"-rows{rows.length}")]
+               s!"-rows{rows.length}" ++ (if nValues > 0 then "+values" else ""))]
 
 end Glom.C05.Driver
